@@ -15,11 +15,13 @@
    and for "nothing in flight at rest" also
      fx_discard_closing  - F36 repaired, fx_reopen_resets - F17 repaired, fx_delete_checks_first - F26 repaired
                            (a refused queue.delete used to leave the queue inactive: pushes to it are lost).
-   PARTIAL: "exactly the numbers 1 .. ch_ctag" (C05_confirm_exactly_once_at_rest_partial) assumes that no number was
-   dropped; the points at which the model drops a number are listed in Proofs/BrokerConfirmHist.v. *)
+   "Exactly the numbers 1 .. ch_ctag" (C05_confirm_exactly_once_at_rest) needs that the run dropped no number of the
+   instance: no_drop_run, decidable from the label list (the older C05_confirm_exactly_once_at_rest_partial states the
+   same under the semantic hypothesis). *)
 From Coq Require Import List String NArith ZArith Bool Permutation.
 Import ListNotations.
 From GMQ Require Import Broker.Model Run.BrokerRun Proofs.BrokerFrames Proofs.BrokerQueueInv Proofs.BrokerConfirm Proofs.BrokerConfirmHist.
+From GMQ Require Proofs.BrokerHeld Proofs.BrokerDurable.
 Open Scope string_scope.
 Open Scope N_scope.
 Open Scope list_scope.
@@ -119,6 +121,50 @@ Theorem C05_confirm_exactly_once_at_rest_partial :
 Proof. exact confirm_exactly_once_at_rest_partial. Qed.
 Print Assumptions C05_confirm_exactly_once_at_rest_partial.
 
+(* EXACTLY ONCE AT REST: ... exactly the numbers 1 .. ch_ctag, provided the run dropped no number of the instance.
+   no_drop_run cfg fx s ls c h is a boolean function of the label list (it threads the state): within an instance of the
+   channel, no basic.publish arrives while the previous message is still being assembled (ch_cur <> None), no body frame
+   exceeds the announced size (the refusal clears ch_cur), and the channel is not closed after any step; when an instance
+   begins (the channel number comes into being, or is opened again) it is not closed and its counter is 0.  The end of an
+   instance (close/reopen, connection loss, restart) starts the condition - like acked_run - afresh. *)
+Theorem C05_confirm_exactly_once_at_rest :
+  forall cfg fx ls c h ch,
+    fx_clear_current fx = true -> fx_discard_closing fx = true -> fx_reopen_resets fx = true -> fx_delete_checks_first fx = true ->
+    fresh_along cfg fx (init cfg) ls -> no_drop_run cfg fx (init cfg) ls c h = true ->
+    let s := fst (run cfg fx (init cfg) ls) in
+    quiescent s = true -> get_chan s c h = Some ch -> ch_status ch = ChOpen -> ch_confirm ch = true -> ch_cur ch = None ->
+    Permutation (acked_run cfg fx (init cfg) ls c h) (nums (ch_ctag ch)).
+Proof. exact confirm_exactly_once_at_rest. Qed.
+Print Assumptions C05_confirm_exactly_once_at_rest.
+
+(* ... at every instant of such a run (at rest or not) every number 1 .. ch_ctag is acknowledged or in flight *)
+Theorem C05_confirm_nothing_dropped :
+  forall cfg fx ls c h ch,
+    fx_clear_current fx = true -> fresh_along cfg fx (init cfg) ls -> no_drop_run cfg fx (init cfg) ls c h = true ->
+    let s := fst (run cfg fx (init cfg) ls) in
+    get_chan s c h = Some ch ->
+    forall t, 1 <= t <= ch_ctag ch -> In t (acked_run cfg fx (init cfg) ls c h ++ where_is s c h).
+Proof. exact confirm_nothing_dropped. Qed.
+Print Assumptions C05_confirm_nothing_dropped.
+
+(* NEVER EARLY, store clause at history level (Proofs/BrokerDurable.v, from C05_confirm_never_early and store
+   completeness): when basic.ack t is written, the message carrying t has no add pending, and in every durable queue
+   that (still) holds it - i.e. unless it was consumed and settled, or its queue purged or deleted, meanwhile - its key
+   is in the flushed store with no delete pending.  (no_purge_while_unsettled: open finding F41-unsettled.) *)
+Theorem C05_confirmed_is_stored :
+  forall cfg fx ls l c h t b,
+    fx_clear_current fx = true -> fresh_along cfg fx (init cfg) ls ->
+    BrokerDurable.no_purge_while_unsettled cfg fx (init cfg) ls = true ->
+    let s := fst (run cfg fx (init cfg) ls) in
+    In (c, h, SAck t b) (snd (step cfg fx s l)) ->
+    l = LConfirmTick c h /\
+    exists ch u m, get_chan s c h = Some ch /\ get_msg s u = Some m /\ m_conf m = Some (c, h, t) /\ m_inst m = ch_inst ch /\
+      (forall qn, ~ In (u, qn) (st_add s)) /\
+      forall qn qu, get_queue s qn = Some qu -> q_durable qu = true -> m_pers m = true -> In u (BrokerHeld.held s (q_id qu)) ->
+        In (u, qn) (st_db s) /\ ~ In (u, qn) (st_del s).
+Proof. exact BrokerDurable.confirmed_is_stored. Qed.
+Print Assumptions C05_confirmed_is_stored.
+
 (* fresh_along holds of every run in which no connection id occurs twice in the LConnect / LAccept labels (the broker
    numbers its connections with a counter): with this, the hypothesis of the theorems above is a syntactic condition *)
 Theorem C05_distinct_connection_ids_suffice :
@@ -200,5 +246,22 @@ Example C05_mixed_publishes_all_acknowledged_once_at_rest :
             [LQueueLoop "d1"; LQueueLoop "d2"; LQueueLoop "t1"; LPersistTick; LRelay; LRelay; LConfirmTick 1 1] in
   let s := fst (run ex_cfg all_fixed (init ex_cfg) ls) in
   acked_run ex_cfg all_fixed (init ex_cfg) ls 1 1 = [2; 3; 1; 4] /\ where_is s 1 1 = [] /\ quiescent s = true /\
-  option_map ch_ctag (get_chan s 1 1) = Some 4 /\ NoDup (conn_ids ls).
+  option_map ch_ctag (get_chan s 1 1) = Some 4 /\ no_drop_run ex_cfg all_fixed (init ex_cfg) ls 1 1 = true /\ NoDup (conn_ids ls).
 Proof. vm_compute. repeat split; try reflexivity. repeat constructor; cbn; tauto. Qed.
+
+(* no_drop_run excludes what it must: a basic.publish that arrives while the previous message is still being assembled
+   abandons that message with its number - number 1 is never acknowledged *)
+Example C05_exactly_once_refuted_when_a_publish_is_abandoned :
+  let ls := ex_setup ++ [LMethod 1 1 (MPublish "amq.fanout" "" false false)] ++ ex_pub 1 1 "" "t1" 2 false ++ [LQueueLoop "t1"; LConfirmTick 1 1] in
+  let s := fst (run ex_cfg all_fixed (init ex_cfg) ls) in
+  no_drop_run ex_cfg all_fixed (init ex_cfg) ls 1 1 = false /\ acked_run ex_cfg all_fixed (init ex_cfg) ls 1 1 = [2] /\
+  where_is s 1 1 = [] /\ quiescent s = true /\ option_map ch_ctag (get_chan s 1 1) = Some 2.
+Proof. vm_compute. repeat split; reflexivity. Qed.
+
+(* after close and reopen the condition, like the acknowledged list, starts afresh with the new instance *)
+Example C05_no_drop_run_restarts_with_the_instance :
+  let ls := ex_setup ++ ex_pub 1 1 "amq.fanout" "" 1 true ++
+            [LMethod 1 1 MChannelClose; LMethod 1 1 MChannelOpen; LMethod 1 1 (MConfirmSelect false)] ++ ex_pub 1 1 "" "t1" 2 false ++
+            [LPersistTick; LRelay; LConfirmTick 1 1] in
+  no_drop_run ex_cfg all_fixed (init ex_cfg) ls 1 1 = true /\ acked_run ex_cfg all_fixed (init ex_cfg) ls 1 1 = [1].
+Proof. vm_compute. split; reflexivity. Qed.
